@@ -117,6 +117,20 @@ def permutation_pairs():
     return out
 
 
+def reorder_pairs():
+    """the same accesses with the same operands performed in the opposite order (store/store, load/store, hash/store; storage and memory;
+    keys taken from the stack, so that they can coincide): equal as sets of operations, different as programs"""
+    out = []
+    for st in ("SSTORE", "MSTORE", "MSTORE8"):
+        out.append(("%s %s" % (st, st), "SWAP2 SWAP1 SWAP3 SWAP1 %s %s" % (st, st)))
+        out.append(("DUP4 DUP4 DUP4 DUP4 %s %s" % (st, st), "DUP2 DUP2 DUP6 DUP6 %s %s" % (st, st)))
+    for ld, st in (("SLOAD", "SSTORE"), ("MLOAD", "MSTORE"), ("MLOAD", "MSTORE8")):
+        out.append(("%s SWAP2 SWAP1 %s" % (ld, st), "SWAP2 SWAP1 %s %s" % (st, ld)))
+        out.append(("DUP1 %s DUP4 DUP4 %s" % (ld, st), "DUP3 DUP3 %s DUP1 %s" % (st, ld)))
+    out.append(("KECCAK256 SWAP2 SWAP1 MSTORE", "SWAP2 SWAP1 SWAP3 SWAP1 MSTORE KECCAK256"))
+    return out + [(b, a) for a, b in out]
+
+
 def multiset_pairs():
     """an operation performed twice against one copy of it plus a different, independent operation of the same kind (a comparison of
     the two specifications' stores that is not one-to-one lets both copies match the same store), both directions"""
@@ -149,6 +163,9 @@ def run(tier):
     for a, b in multiset_pairs():
         for o in osets:
             tasks.append({"kind": "compare", "a": a, "b": b, "opts": o, "mut": "multiset"})
+    for a, b in reorder_pairs():
+        for o in osets:
+            tasks.append({"kind": "compare", "a": a, "b": b, "opts": o, "mut": "access-order"})
     for a, b in permutation_pairs():
         for o in (osets[:1] + osets[2:3]):
             tasks.append({"kind": "compare", "a": a, "b": b, "opts": o, "mut": "operand-permutation"})
